@@ -85,15 +85,19 @@ def api_case(spec, ctx):
         if bogus not in al:
             try:
                 cls(**{bogus: 1.0})
+                accepted = True
+            except Exception:  # "rejects unknown names": any error
+                accepted = False
+            if accepted:
                 ctx.fail(f"api:unknown-name-accepted:{what.split('[')[0]}", f"{what}({bogus}=1.0) accepted; names {al}", spec)
-            except TypeError:
-                pass
         wrong = np.zeros((nn + 1, 1)) if not is_cov else np.zeros((nn, nn + 1))
         try:
             cls.from_data(wrong)
+            accepted = True
+        except Exception:  # "rejects wrong shapes": any error
+            accepted = False
+        if accepted:
             ctx.fail(f"api:wrong-shape-accepted:{what.split('[')[0]}", f"{what}.from_data(shape {wrong.shape}) accepted", spec)
-        except ValueError:
-            pass
         with ctx.formak("api:from_dict", spec):
             obj2 = cls.from_dict({sympy.Symbol(k): v for k, v in kw.items()})
         if not np.array_equal(np.asarray(obj2.data, float), data):
